@@ -184,7 +184,8 @@ def evaluate(args):
     try:
       ctx = framework.run_rules(prop, 'quick', overlay={m['file']: m['source']})
       keys = sorted(set(o.rule for o in ctx.obligations if o.status == 'violation'))
-      res['check'] = ('reported: ' + ', '.join(keys)) if keys else 'silent'
+      und = sorted(set(o.rule for o in ctx.obligations if o.status == 'undecided'))
+      res['check'] = ('reported: ' + ', '.join(keys)) if keys else (('cannot decide: ' + ', '.join(und)) if und else 'silent')
     except AnalysisError as e:
       res['check'] = 'cannot decide: ' + str(e)[:160]
     except Exception as e:
@@ -206,6 +207,8 @@ def main():
   muts = []
   for f, qs in sorted(by_file.items()):
     muts.extend(gen_mutants(f, qs))
+  import random
+  random.Random(20261002).shuffle(muts)      # a fixed sample across all owning functions, not the first mx in file order
   muts = muts[:mx]
   print('%s: %d mutants in %d functions, demonstrations %s' % (prop, len(muts), sum(len(v) for v in by_file.values()), [os.path.basename(os.path.dirname(d)) for d in demos]))
   wts = []
